@@ -28,3 +28,12 @@ add("C20", "exploration", "property-based metamorphic testing (rapid): clone equ
     "Generated packets (API-built or decoded from one wire buffer) are cloned; the clone must be observably equal (fields, ids, values, Marshal bytes) and a mutation of either side (payload byte, CSRC, extension value through the returned slice, Set/Del, scalars) must leave the other side's observables and Marshal bytes unchanged; same for Header.Clone.",
     "Observables are the exported fields and accessors; nil-vs-empty distinctions are not asserted.",
     "DESIGN.md 4/C20")
+
+add("C06", "exploration", "model-based stateful property testing (rapid-drawn Packetize/SkipSamples/GeneratePadding histories, payloader spy, injected clock)",
+    "Histories of packetizer calls over eleven payloaders (plus a scripted stub) are checked against a sequence/timestamp model with learned initial values; payloads must equal the spied fragments, fixed fields, marker and the abs-send-time value (exact 6.18 encoding of an injected instant) are checked, every packet must fit the MTU and survive marshal/parse, padding packets must be valid padding-only RTP.",
+    "Needs the build-tag hook VerifSetPacketizerClock to inject the clock; the payloader's own output is trusted here (C08, C10-C14 check it); MTU bound is not asserted for padding packets or Opus payloads larger than the budget.",
+    "DESIGN.md 4/C06")
+add("C07", "exploration", "stress-generated concurrent histories (rapid-drawn plans) decided by an exact linearizability checker for the counter specification, half of the runs under the Go race detector; exhaustive sequential sweep over all start values (thorough)",
+    "Plans (goroutines, op mix, yield pattern, GOMAXPROCS, start value) are drawn by rapid, executed against the real sequencer with invocation/response stamps, and the whole history is decided exactly (greedy with exchange argument; the checker is self-tested on illegal histories). Sequential sweeps check value order and RollOverCount = zeros issued after every call; random sequencers must start below 2^15.",
+    "Interleavings are chosen by the Go scheduler, not enumerated: absence of a violation speaks only for the schedules that occurred. The race detector only sees races on executed paths.",
+    "DESIGN.md 4/C07")
